@@ -254,7 +254,7 @@ func init() {
 			}
 			// SOURCE_DATE_EPOCH in the environment next to a configured mtime, and alone
 			for _, s := range []Setting{sets[0], {Name: "mtime=unset", MTime: "unset"}} {
-				for _, sde := range []string{"1500000000", "0"} {
+				for _, sde := range []string{"1500000000", "1000000000", "0"} {
 					for _, sh := range [][]string{{"f5000", "dir", "symlink"}, {"config", "f1"}, nil} {
 						if !yield(C03Case{Shape: sh, Setting: s, SDE: sde}) {
 							return
